@@ -35,6 +35,7 @@ structure St where
   types : Array (CellType Float) := #[]
   born : List (Nat × Nat × Float) := []          -- id, type index, volume at construction
   tyIdx : List (Nat × Nat) := []                 -- id ↦ type index (echoed)
+  pending : List (Cell Float) := []              -- the cells handed to solver::solver, before `initPop`
   pop : Pop Float := { cells := [], nextId := 0 }
   it : Nat := 0
   dt : Float := 0
@@ -74,10 +75,14 @@ def step (s : St) (line : String) : St × List String :=
       match lookup s.born i, s.types[t]? with
       | some (t', vb), some cty =>
         if t' ≠ t then (s, ["bad-type"]) else
-        let c := solverInit Fn.float (newborn i cty vb g vd)
-        let pop := { cells := s.pop.cells ++ [c], nextId := s.pop.nextId + 1 }
-        ({ s with pop := pop, tyIdx := s.tyIdx ++ [(i, t)] },
-         [s!"init {i} {t} {showCellTail c} {if ready c then 1 else 0}"])
+        -- the model numbers the cells itself (`initPop`): the id printed is the model's
+        let pending := s.pending ++ [newborn 0 cty vb g vd]
+        let pop := initPop Fn.float pending
+        match pop.cells.getLast? with
+        | some c =>
+          ({ s with pending := pending, pop := pop, tyIdx := s.tyIdx ++ [(c.id, t)] },
+           [s!"init {c.id} {t} {showCellTail c} {if ready c then 1 else 0}"])
+        | none => (s, ["bad-init"])
       | _, _ => (s, ["bad-init"])
     | _, _, _, _ => (s, ["bad-line"])
   | "iter" :: n :: dt :: _counter :: "pre" :: ids =>
